@@ -70,11 +70,11 @@ func c02Alphabet() (lines []c02Line, hA, hB string) {
 		net(false, p, true, "client=10.0.0.0/8|~10.0.0.1"), // a client inside both the permitted and the restricted set
 		net(false, p, true, "client=laptop|~laptop"),
 		net(false, "||cafe.de^", true, "denyallow=x.test"),
-		net(false, "/sub.", true), // a "/label." pattern: applied to "http://" + host name, the slash being the last one of the scheme
-		net(false, "http://example.org^", true),                                         // the scheme spelled out: filed under a window of "http://"
+		net(false, "/sub.", true),                                                          // a "/label." pattern: applied to "http://" + host name, the slash being the last one of the scheme
+		net(false, "http://example.org^", true),                                            // the scheme spelled out: filed under a window of "http://"
 		{text: "0.0.0.0 sub.example.org # see lists.example.net/hosts.txt##ads and x#@#y"}, // element-hiding markers further inside a comment
-		{text: "0.0.0.0 example.org sub.example.org # src: https://x.test/l?a=b|c^*$@"}, // a host name spelled with hexadecimal digits only is not an address
-		net(false, p, false, "third-party", "important"),                                // browser-only modifier next to a DNS-level one
+		{text: "0.0.0.0 example.org sub.example.org # src: https://x.test/l?a=b|c^*$@"},    // a host name spelled with hexadecimal digits only is not an address
+		net(false, p, false, "third-party", "important"),                                   // browser-only modifier next to a DNS-level one
 		net(true, p, false, "document", "important"),
 		net(false, p, false, "popup", "important"),
 	}
@@ -433,16 +433,21 @@ func (m *c02Model) run(hist []int) statespace.Outcome {
 			}
 			return fmt.Sprintf("matched=%v rule=%s rules=%v v4=%v v6=%v", matched, renderNetText(res.NetworkRule), netTexts(res.NetworkRules), v4, v6)
 		}
-		seenHost := map[string]bool{}
+		plain := map[string]string{}
 		for _, q := range m.reqs {
 			rq := q.r
 			var a, b, w string
+			if _, ok := plain[rq.Hostname]; !ok {
+				pr := urlfilter.DNSRequest{Hostname: rq.Hostname}
+				if p := protect(func() { plain[rq.Hostname] = render(e.MatchRequest(&pr)) }); p != nil {
+					plain[rq.Hostname] = fmt.Sprintf("panic: %v", p)
+				}
+			}
 			if p := protect(func() {
 				a = render(e.MatchRequest(&rq))
 				b = render(e.MatchRequest(&rq))
-				if !seenHost[rq.Hostname] {
-					w = render(e.Match(rq.Hostname))
-				}
+				// the wrapper, right after a request that carried this request's client fields
+				w = render(e.Match(rq.Hostname))
 			}); p != nil {
 				violate("no-crash", map[string]any{"lines": texts, "request": q.desc, "route": "repeat"}, fmt.Sprintf("MatchRequest(%s) asked again over %q panics: %v", q.desc, texts, p))
 				break
@@ -452,15 +457,10 @@ func (m *c02Model) run(hist []int) statespace.Outcome {
 					fmt.Sprintf("list %q, request %s: the same request object asked twice gives %s, then %s", texts, q.desc, a, b))
 				break
 			}
-			if !seenHost[rq.Hostname] {
-				seenHost[rq.Hostname] = true
-				plain := urlfilter.DNSRequest{Hostname: rq.Hostname}
-				var pa string
-				if p := protect(func() { pa = render(e.MatchRequest(&plain)) }); p == nil && pa != w {
-					violate("dns-answer-equals-reference", map[string]any{"lines": sortedSet(texts), "hostname": rq.Hostname, "route": "Match(hostname)"},
-						fmt.Sprintf("list %q: DNSEngine.Match(%q) gives %s, MatchRequest with the same host name gives %s", texts, rq.Hostname, w, pa))
-					break
-				}
+			if w != plain[rq.Hostname] {
+				violate("dns-answer-equals-reference", map[string]any{"lines": sortedSet(texts), "hostname": rq.Hostname, "route": "Match(hostname)"},
+					fmt.Sprintf("list %q: DNSEngine.Match(%q) right after the request %s gives %s, MatchRequest with nothing but the host name gives %s", texts, rq.Hostname, q.desc, w, plain[rq.Hostname]))
+				break
 			}
 		}
 	}
